@@ -259,10 +259,10 @@ def plan(tier: str) -> list[dict]:
         return ([{"mode": "machine", "max_n": 5, "examples": 300, "steps": 25, "cost": 3} for _ in range(4)]
                 + [{"mode": "machine", "max_n": 7, "explicit": 5, "examples": 25, "steps": 15, "cost": 3}]
                 + [{"mode": "allK", "n": 3, "games": 60, "cost": 1}, {"mode": "allK", "n": 4, "games": 6, "cost": 2}])
-    return ([{"mode": "machine", "max_n": 6, "examples": 500, "steps": 40, "cost": 8} for _ in range(8)]
-            + [{"mode": "machine", "max_n": 8, "explicit": 4, "examples": 60, "steps": 25, "cost": 10} for _ in range(4)]
-            + [{"mode": "allK", "n": 3, "games": 200, "cost": 1}]
-            + [{"mode": "allK", "n": 4, "games": 50, "cost": 6} for _ in range(4)])
+    return ([{"mode": "machine", "max_n": 6, "examples": 900, "steps": 40, "cost": 8} for _ in range(8)]
+            + [{"mode": "machine", "max_n": 8, "explicit": 4, "examples": 150, "steps": 25, "cost": 10} for _ in range(4)]
+            + [{"mode": "allK", "n": 3, "games": 400, "cost": 1}]
+            + [{"mode": "allK", "n": 4, "games": 80, "cost": 6} for _ in range(4)])
 
 
 def run_shard(spec: dict, ctx: Ctx) -> None:
